@@ -145,6 +145,8 @@ func (g *Gen) payload() Payload {
 	p := Payload{ID: g.nextPayload, Len: sizes[g.pick(len(sizes))], Stun: g.pick(12) == 0}
 	if p.Len == 0 && !p.Stun {
 		p.ID = 0 // empty datagrams are indistinguishable
+	} else if !p.Stun && g.pick(12) == 0 {
+		p.ID = RefusedPayloadID // the socket will report a send fault for this one
 	}
 	return p
 }
